@@ -93,6 +93,10 @@ class _Handle(object):
         if not self.readable:
             raise io.UnsupportedOperation('not readable')
         d = self._data()
+        if self.pos >= len(d):
+            self._read_fault(0)
+            self.fs._rec(self, 'readline', self.pos, 0)
+            return self._out(b'')          # at / beyond EOF: nothing read, position unchanged
         j = d.find(b'\n', self.pos)
         end = len(d) if j < 0 else j + 1
         self._read_fault(end - self.pos)
@@ -178,7 +182,7 @@ class _Handle(object):
                 fs.fired['enospc'] = fs.fired.get('enospc', 0) + 1
                 fs._rec(self, 'ENOSPC', self.pos, len(part))
                 raise OSError(errno.ENOSPC, 'No space left on device (simulated)', self.path)
-        if self.pos > len(d):
+        if self.pos > len(d) and b:
             d.extend(b'\0' * (self.pos - len(d)))
         d[self.pos:self.pos + len(b)] = b
         fs._rec(self, 'write', self.pos, len(b))
